@@ -95,6 +95,8 @@ type eagrEnv struct {
 	proposals sync.Map   // eagrPropKey -> eagrPropRes
 	validated sync.Map   // crypto.Digest (EncodingDigest) -> eagrValRes
 	msgs      sync.Map   // [16]byte content id -> *eagrMsg
+	voteMsgs  sync.Map   // unauthenticatedVote -> *eagrMsg (fast path of intern)
+	compMsgs  sync.Map   // eagrCompKey -> *eagrMsg (fast path of intern)
 
 	statMakeVote, statVerify, statBundleVerify, statValidate int64
 }
@@ -473,8 +475,32 @@ type eagrMsg struct {
 
 func (m *eagrMsg) ID() string { return hex.EncodeToString(m.id[:6]) }
 
+// eagrCompKey identifies a compound message built from a proposal made by eagrEnv.makeProposal
+// (every payload in the system is one) without hashing it.
+type eagrCompKey struct {
+	vote     unauthenticatedVote
+	proposer basics.Address
+	operiod  period
+	round    basics.Round
+	seed     committee.Seed
+	branch   bookkeeping.BlockHash
+}
+
 func (env *eagrEnv) intern(m *eagrMsg) *eagrMsg {
 	var enc []byte
+	var ck eagrCompKey
+	switch m.tag {
+	case protocol.AgreementVoteTag:
+		if old, ok := env.voteMsgs.Load(m.vote); ok {
+			return old.(*eagrMsg)
+		}
+	case protocol.ProposalPayloadTag:
+		up := m.compound.Proposal
+		ck = eagrCompKey{vote: m.compound.Vote, proposer: up.OriginalProposer, operiod: up.OriginalPeriod, round: up.Round(), seed: up.Seed(), branch: up.Branch}
+		if old, ok := env.compMsgs.Load(ck); ok {
+			return old.(*eagrMsg)
+		}
+	}
 	switch m.tag {
 	case protocol.AgreementVoteTag:
 		enc = protocol.Encode(&m.vote)
@@ -495,7 +521,13 @@ func (env *eagrEnv) intern(m *eagrMsg) *eagrMsg {
 	h := sha256.Sum256(append([]byte(m.tag), enc...))
 	copy(m.id[:], h[:16])
 	if old, ok := env.msgs.LoadOrStore(m.id, m); ok {
-		return old.(*eagrMsg)
+		m = old.(*eagrMsg)
+	}
+	switch m.tag {
+	case protocol.AgreementVoteTag:
+		env.voteMsgs.Store(m.vote, m)
+	case protocol.ProposalPayloadTag:
+		env.compMsgs.Store(ck, m)
 	}
 	return m
 }
